@@ -131,7 +131,59 @@ def c09(tier):
             "floating getters: only pass-through is modelled (strtof/strtod axiomatised); correct rounding is libc's"],
             "explanation": "bounded model checking of the typed getters on symbolic literals / texts against a mathematical oracle"}
 
-REGISTRY = {"C04": c04, "C08": c08, "C09": c09}
+def dec_merge(inp, inst):
+    nb = int(inst.defines.get("NBASE", 2)); no = int(inst.defines.get("NOVER", 2))
+    G = ["-", "A", "B"]; K = ["x", "y"]
+    b = bytes(inp).ljust(2 * (nb + no) + 1, b"\0")
+    f = lambda off, n: " ".join("%s.%s" % (G[b[off + 2 * i] % 3], K[b[off + 2 * i + 1] % 2]) for i in range(n))
+    return {"base": f(0, nb), "override": f(2 * nb, no), "base_ctor": inst.defines.get("BASE_CTOR", 0), "over_ctor": inst.defines.get("OVER_CTOR", 0)}
+
+MERGE_FUNCS = "econf_mergeFiles, insert_nogroup, merge_existing_groups, add_new_groups, cpy_file_entry, setGroupList, getFromGroupList, econf_freeFile"
+
+def canon_patterns(nb, no):
+    """all section patterns over {0 group-less, 1 A, 2 B}^(nb+no) up to renaming A<->B"""
+    import itertools
+    out = []
+    for pat in itertools.product("012", repeat=nb + no):
+        first_named = next((c for c in pat if c != "0"), None)
+        if first_named == "2":
+            continue
+        out.append(("".join(pat[:nb]), "".join(pat[nb:])))
+    return out
+
+def m_inst(nb, no, bc=0, oc=0, timeout=600, gb=None, go=None):
+    n = nb + no
+    ctor = bc in (1, 2) or oc in (1, 2)
+    d = {"NBASE": nb, "NOVER": no, "BASE_CTOR": bc, "OVER_CTOR": oc, "STRCAP": 8, "VCAP": max(n, 9 if ctor else 4, 4)}
+    if gb is not None: d["GPAT_BASE"] = '"%s"' % gb
+    if go is not None: d["GPAT_OVER"] = '"%s"' % go
+    E = max(n, 8 if ctor else n)
+    name = "merge-%d+%d" % (nb, no)
+    if gb is not None: name += "-g%s_%s" % (gb or "e", go or "e")
+    if bc or oc: name += "-ctor%d%d" % (bc, oc)
+    return Instance(name, "m_merge.c", d, unwind=max(9, n + 2, d["VCAP"] + 1),
+                    unwindset=lib_unwinds(E, 4, alloc=E), timeout=timeout, mem_gb=6, leak_check=True, functions=MERGE_FUNCS,
+                    bounds="base %d entries, override %d entries; section pattern base=%s override=%s concrete (0 group-less, 1 A, 2 B; all patterns up to renaming A<->B are separate instances), keys in {x,y} symbolic" % (nb, no, gb, go),
+                    sample_decoder=dec_merge, expect_reach=["end"])
+
+def c03(tier):
+    insts = []
+    pairs = [(nb, no) for nb in range(0, 4) for no in range(0, 4) if 1 <= nb + no <= (4 if tier == "quick" else 6)]
+    if tier == "quick":
+        pairs = [p for p in pairs if p[0] + p[1] <= 3 or p == (2, 2)]
+    for nb, no in pairs:
+        for gb, go in canon_patterns(nb, no):
+            insts.append(m_inst(nb, no, gb=gb, go=go, timeout=600 if tier == "quick" else 1800))
+    for bc in (1, 2, 3):
+        for go in ("00", "01", "11", "12"):
+            insts.append(m_inst(0, 2, bc=bc, oc=0, gb="", go=go))
+        insts.append(m_inst(2, 0, bc=0, oc=bc, gb="01", go=""))
+    insts.append(m_inst(0, 0, bc=1, oc=3)); insts.append(m_inst(0, 0, bc=3, oc=1))
+    return {"instances": insts, "assumptions": COMMON_ASSUME + ["objects are built directly in memory in the shape the parser produces (length == alloc_length, section strings owned by the object's section list)",
+            "when the override defines a key more than once, any of its definitions is accepted as the visible value"],
+            "explanation": "bounded model checking of econf_mergeFiles against the clause-wise reference of DESIGN.md 5.5"}
+
+REGISTRY = {"C03": c03, "C04": c04, "C08": c08, "C09": c09}
 
 def get(prop, tier):
     if prop not in REGISTRY:
